@@ -313,8 +313,48 @@ fn check_text(c: &CmdSpec, inherited_globals: &[&ArgSpec], text: &str, mode: Opt
             }
         }
     }
-    if is_usage || !is_default_template(c) || c.override_usage.is_some() && false {
+    // a hidden subcommand hides its whole subtree: none of its arguments' sentinels may appear either
+    fn subtree_sentinels(c: &CmdSpec, out: &mut Vec<String>) {
+        for a in c.args.iter().filter(|a| !a.global) {
+            for s in arg_sentinels(a) {
+                if s.starts_with("--") || s.starts_with("hlp") || s.starts_with("lhlp") {
+                    out.push(s);
+                }
+            }
+        }
+        for s in &c.subs {
+            subtree_sentinels(s, out);
+        }
+    }
+    for sub in c.subs.iter().filter(|s| s.has(CmdSetting::Hide)) {
+        let mut sent = Vec::new();
+        subtree_sentinels(sub, &mut sent);
+        for t in sent {
+            if contains_token(text, &t) {
+                return Some(("hidden-shown", "argument-of-hidden-subcommand".into(), format!("{t:?} belongs to the hidden subcommand `{}` but shows up in the output", sub.name)));
+            }
+        }
+    }
+    if is_usage || !is_default_template(c) {
         return None;
+    }
+    // flattened help lists the non-global arguments of every visible subcommand in a block of its own
+    if c.has(CmdSetting::FlattenHelp) {
+        for sub in c.subs.iter().filter(|s| !s.has(CmdSetting::Hide)) {
+            for a in sub.args.iter().filter(|a| !a.global && !a.is_positional()) {
+                let must = match mode {
+                    Some(long) => visible_in(a, long),
+                    None => visible_in(a, true) && visible_in(a, false),
+                };
+                if !must {
+                    continue;
+                }
+                let found = a.long.as_ref().map(|l| contains_token(text, &format!("--{l}"))).unwrap_or(false) || a.short.map(|s| text.lines().any(|l| short_listed(l, s))).unwrap_or(false);
+                if !found {
+                    return Some(("visible-missing", "flattened-subcommand-option".into(), format!("flatten_help: option {} of the visible subcommand `{}` is not listed", a.id, sub.name)));
+                }
+            }
+        }
     }
     // listing: every argument visible for the mode appears in its section
     let secs = sections(text);
@@ -779,7 +819,12 @@ fn plain_dispatch(c: &CmdSpec) -> bool {
 /// The help text must be that of `level`: its usage line names the level, and no optional
 /// argument that exists only at another level shows up (unless flattening prints subtrees).
 fn wrong_level(root: &CmdSpec, level: &CmdSpec, chain: &[&CmdSpec], text: &str) -> Option<String> {
-    if level.override_usage.is_none() && level.help_template.is_none() && chain.len() > 1 {
+    // (a flattened level whose subcommands override their usage prints only those custom lines)
+    fn any_override(c: &CmdSpec) -> bool {
+        c.override_usage.is_some() || c.subs.iter().any(any_override)
+    }
+    let flattened_custom = level.has(CmdSetting::FlattenHelp) && level.subs.iter().any(any_override);
+    if level.override_usage.is_none() && level.help_template.is_none() && chain.len() > 1 && !flattened_custom {
         let usage_lines: Vec<&str> = text.lines().skip_while(|l| !l.starts_with("Usage:")).take_while(|l| !l.is_empty()).collect();
         if !usage_lines.is_empty() && !usage_lines.iter().any(|l| contains_token(l, &level.name)) {
             return Some(format!("the usage line does not name `{}`", level.name));
